@@ -492,7 +492,7 @@ def pinned_known(key, rec):
     import yaml
     _paths()
     if key == "deep-construction-rejects-cycle-first-reached-from-setstate-state":
-        text = "[{? &a7 !!python/object:canary_objs.Node {v4: *a7} : v5}, !!python/object:canary_objs.NodeS {v6: *a7}]"
+        text = "&a1 !!python/object:canary_objs.NodeS {v1: &a2 [v2, *a2]}"
         try:
             yaml.unsafe_load(text)
             return False
